@@ -37,6 +37,8 @@ func quiet() {
 	flag.Set("logtostderr", "false")
 	flag.Set("stderrthreshold", "FATAL")
 	*network = mainNetwork
+	// like main(): message ids are the raft index plus the configured offset
+	robust.MessageOffset = *messageOffset
 }
 
 func commandNames() []string {
@@ -70,7 +72,8 @@ func worldOf(i *ircserver.IRCServer) *ircgen.World {
 	sess := iv.FieldByName("sessions")
 	for _, k := range sess.MapKeys() {
 		s := sess.MapIndex(k).Elem()
-		si := ircgen.SessInfo{Id: k.Field(0).Uint(), Reply: k.Field(1).Uint(), Nick: rstr(s, "Nick"), User: rstr(s, "Username"), LoggedIn: rbool(s, "loggedIn"), Oper: rbool(s, "Operator"), Server: rbool(s, "Server"), Auth: rstr(s, "auth"), RemoteAddr: rstr(s, "RemoteAddr")}
+		// the generator works with logical ids (raft indexes); message ids carry the offset
+		si := ircgen.SessInfo{Id: k.Field(0).Uint() - robust.MessageOffset, Reply: k.Field(1).Uint(), Nick: rstr(s, "Nick"), User: rstr(s, "Username"), LoggedIn: rbool(s, "loggedIn"), Oper: rbool(s, "Operator"), Server: rbool(s, "Server"), Auth: rstr(s, "auth"), RemoteAddr: rstr(s, "RemoteAddr")}
 		la := s.FieldByName("LastActivity")
 		ext := la.FieldByName("ext").Int()
 		wall := la.FieldByName("wall").Uint()
@@ -114,7 +117,7 @@ func worldOf(i *ircserver.IRCServer) *ircgen.World {
 		w.Channels = append(w.Channels, ci)
 	}
 	for k := range w.Sessions {
-		sk := reflect.ValueOf(robust.Id{Id: w.Sessions[k].Id, Reply: w.Sessions[k].Reply})
+		sk := reflect.ValueOf(robust.Id{Id: w.Sessions[k].Id + robust.MessageOffset, Reply: w.Sessions[k].Reply})
 		s := sess.MapIndex(sk).Elem()
 		for _, ck := range s.FieldByName("Channels").MapKeys() {
 			if n, ok := chanName[ck.String()]; ok {
@@ -138,7 +141,10 @@ func worldOf(i *ircserver.IRCServer) *ircgen.World {
 }
 
 func toMessage(e ircgen.Entry) robust.Message {
-	m := robust.Message{Id: robust.Id{Id: e.Id}, Session: robust.Id{Id: e.Session}, Data: e.Data, UnixNano: e.Nano, RemoteAddr: e.Addr, ClientMessageId: e.CMID, Revision: e.Rev}
+	m := robust.Message{Id: robust.Id{Id: robust.IdFromRaftIndex(e.Id)}, Session: robust.Id{Id: e.Session}, Data: e.Data, UnixNano: e.Nano, RemoteAddr: e.Addr, ClientMessageId: e.CMID, Revision: e.Rev}
+	if e.Session != 0 {
+		m.Session.Id = robust.IdFromRaftIndex(e.Session)
+	}
 	switch e.Kind {
 	case "create":
 		m.Type = robust.CreateSession
@@ -159,6 +165,9 @@ func toMessage(e ircgen.Entry) robust.Message {
 // toLog encodes an entry the way api.applyMessageWait does ('p' + protobuf) or as legacy JSON.
 func toLog(e ircgen.Entry, useProto bool) *raft.Log {
 	m := toMessage(e)
+	// api.applyMessageWait encodes the message before raft assigns the index: the id is absent
+	// in the log entry and defaults to offset + index on every reader
+	m.Id = robust.Id{}
 	l := &raft.Log{Type: raft.LogCommand, Index: e.Id, Term: 1, AppendedAt: time.Unix(0, e.Nano)}
 	if useProto {
 		b, err := proto.Marshal(m.ProtoMessage())
@@ -192,8 +201,8 @@ func mask003(data string) string {
 }
 
 // outputOf reads the batch stored for an input id in canonical form ("" when absent).
-func outputOf(o *outputstream.OutputStream, id uint64) (string, bool) {
-	msgs, ok := o.Get(robust.Id{Id: id})
+func outputOf(o *outputstream.OutputStream, index uint64) (string, bool) {
+	msgs, ok := o.Get(robust.Id{Id: robust.IdFromRaftIndex(index)})
 	if !ok {
 		return "", false
 	}
